@@ -297,7 +297,7 @@ def _elem_class(repo: Repo, module: Module, ann: ast.expr) -> Optional[ClassInfo
     return None
 
 
-def encoder_slots(repo: Repo, module: Module, clsname: str, method: str = "encode"):
+def encoder_slots(repo: Repo, module: Module, clsname: str, method: str = "encode", want_fmt: Optional[str] = None):
     """-> (Packed, problems, record var description). Evaluates the per-record struct pack of an encoder."""
     ci = module.get_class(clsname)
     fn = ci.methods.get(method)
@@ -305,7 +305,32 @@ def encoder_slots(repo: Repo, module: Module, clsname: str, method: str = "encod
         raise AnalysisError(f"{module.relpath}: {clsname}.{method} vanished")
     ev = B.Ev(repo, module, ci)
     problems = []
-    body = _find_body_with(fn, lambda s: not isinstance(s, (ast.For, ast.While, ast.If)) and _has_call(s, ("pack", "pack_into")))
+    def packs_here(stmts):
+        best = 0
+        for s_ in stmts:
+            if isinstance(s_, (ast.For, ast.While, ast.If)):
+                continue
+            for n_ in ast.walk(s_):
+                if isinstance(n_, ast.Call) and isinstance(n_.func, ast.Attribute) and n_.func.attr in ("pack", "pack_into"):
+                    st_ = repo.try_fold(module, n_.func.value)
+                    if isinstance(st_, StructVal) and (want_fmt is None or st_.fmt == want_fmt):
+                        best = max(best, st_.size)
+        return best
+
+    cands = []
+
+    def rec(stmts):
+        sz = packs_here(stmts)
+        if sz:
+            cands.append((sz, stmts))
+        for s_ in stmts:
+            for name in ("body", "orelse"):
+                sub = getattr(s_, name, None)
+                if isinstance(sub, list) and sub and isinstance(sub[0], ast.stmt):
+                    rec(sub)
+
+    rec(fn.body)
+    body = max(cands, key=lambda c: c[0])[1] if cands else None
     if body is None:
         # pack may sit inside a helper (timer encoders): look for a helper with pack
         raise AnalysisError(f"{module.relpath}: {clsname}.{method}: no struct pack found")
@@ -332,7 +357,7 @@ def encoder_slots(repo: Repo, module: Module, clsname: str, method: str = "encod
             for n in ast.walk(s):
                 if isinstance(n, ast.Call) and isinstance(n.func, ast.Attribute) and n.func.attr == "pack":
                     st = ev.const(module, n.func.value)
-                    if isinstance(st, StructVal):
+                    if isinstance(st, StructVal) and (want_fmt is None or st.fmt == want_fmt) and packed is None:
                         args = []
                         for a in n.args:
                             try:
@@ -341,7 +366,8 @@ def encoder_slots(repo: Repo, module: Module, clsname: str, method: str = "encod
                                 problems.append(f"pack arg {norm_text(a)[:40]}: {ex}")
                                 args.append(None)
                         packed = B.Packed(st, args)
-            break
+            if packed is not None:
+                break
         if isinstance(s, (ast.Assign, ast.AnnAssign)):
             try:
                 ev.run([s], env, module, B.TRUE)
